@@ -402,6 +402,57 @@ PROPERTIES["C23"] = dict(
     smt=dict(module="props_c23", K=6, N=24, timeout_ms=600000),
 )
 
+# --------------------------------------------------------------------------- C07 / C08 / C09 (PNG read/write kernel)
+_PNG_SCOPE = ("sdk/src/asset_handlers/png_io.rs <PngIO as CAIWriter>::write_cai, ::remove_cai_store_from_stream, ::get_object_locations_from_stream, "
+              "<PngIO as CAIReader>::read_cai, get_cai_data, get_png_chunk_positions, PngChunkPos::end; sdk/src/utils/io_utils.rs patch_stream, stream_len, "
+              "<R as ReaderUtils>::read_to_vec")
+_PNG_TECH = ("symbolic execution of the Rust source (syn AST -> bit-vector SMT) of the PNG handler's write/read/remove/location routines over in-memory "
+             "stream models, for every valid PNG within the bound, decided by z3; native replay on the real handler")
+_PNG_OUT = ["every other format (JPEG, BMFF, TIFF, RIFF, GIF, SVG, MP3, FLAC, JPEG XL, c2pa): third-party container crates or parsers outside the encoder",
+            "PNG files longer than the tier bound, stores longer than 3-4 bytes (the routines copy the store bytes verbatim; its length only enters the chunk header)",
+            "file-path entry points (save_cai_store etc.: file I/O around the same stream routines)", "CRC values (never checked by the SDK's reader)"]
+_PNG_ASSUME = ["z3 is sound for QF_BV", "the symbolic interpreter (symex.py) is faithful for the constructs it accepts (fails closed otherwise)",
+                 "models: std::io::Cursor (full reads, overwrite/extend writes), std::io::copy, Read::take/read_to_end/into_inner, byteorder readers; png_pong chunk encoder = be32(len) ++ name ++ data ++ 4 unconstrained CRC bytes (validated against the real handler on concrete PNGs every run)",
+                 "input description: a valid PNG = signature, chunks that tile the file, IHDR first (and only there), four-letter chunk types, first IEND ends the file, at most one caBX"]
+PROPERTIES["C07"] = dict(
+    title="Embedding round trip: write, read, replace and remove manifest stores",
+    level="model_checking", engine="smt", technique=_PNG_TECH,
+    level_text=("Bounded symbolic checking of the PNG handler SOURCE (one of the writable formats): the asset is the PNG signature followed by arbitrary "
+                "bytes constrained only by an input-side validity description (chunk lengths, names, data, CRC bytes and the position of an existing "
+                "manifest chunk all symbolic), the store is an arbitrary byte string.  z3 decides for ALL such assets and stores that write_cai "
+                "succeeds and read_cai on the written bytes returns exactly the store (read_cai refuses more than one caBX, so writing replaces), "
+                "and that remove_cai_store_from_stream succeeds, leaves no manifest and an asset the scanner still accepts."),
+    level_note=("PNG only.  Assets of 8 + 50 (quick) / 62 (thorough) bytes = up to 4 / 5 chunks; stores up to 3 / 4 bytes.  The second write of a "
+                "write/write sequence is covered because the input may already carry a manifest chunk anywhere after IHDR."),
+    scope=_PNG_SCOPE, outside=_PNG_OUT, assumptions=_PNG_ASSUME, harnesses=[],
+    smt=dict(module="props_c07", K=6, N=24, timeout_ms=1500000),
+)
+PROPERTIES["C08"] = dict(
+    title="Same-size manifest replacement only changes the reported manifest region",
+    level="model_checking", engine="smt", technique=_PNG_TECH,
+    level_text=("Bounded symbolic checking of the PNG handler SOURCE: for ALL valid PNGs and stores in the bound, after write_cai the object locations "
+                "report exactly one manifest region, inside the file, holding the chunk header and the store bytes, and the other regions tile the "
+                "rest of the file without overlap; two stores of the SAME length written into the same asset give files that are identical "
+                "outside that region (two symbolic executions of write_cai compared byte for byte)."),
+    level_note=("PNG only.  Assets of 8 + 42 (quick) / 52 (thorough) bytes = up to 3 / 4 chunks; stores up to 3 bytes.  The store-level placeholder/final "
+                "write flow (store.rs) that relies on this is outside."),
+    scope=_PNG_SCOPE, outside=_PNG_OUT + ["store.rs start_save_stream / finish_save_stream"], assumptions=_PNG_ASSUME, harnesses=[],
+    smt=dict(module="props_c08", K=6, N=24, timeout_ms=1500000),
+)
+PROPERTIES["C09"] = dict(
+    title="Embedding and removing a manifest preserves the media content",
+    level="model_checking", engine="smt", technique=_PNG_TECH,
+    level_text=("Bounded symbolic checking of the PNG handler SOURCE against an input-side oracle (the file with its caBX chunk cut out, computed "
+                "from the chunk walk of the bytes): for ALL valid PNGs and stores in the bound, removal yields exactly the asset without its manifest "
+                "chunk, and embedding or replacing yields a file that, with the new chunk (placed directly after IHDR) cut out, is byte-identical "
+                "to the original without its old manifest chunk -- every other chunk keeps its bytes and order.  Thorough: "
+                "remove(write(x, s)) == remove(x) executed end to end."),
+    level_note=("PNG only (no absolute offsets exist in PNG, so the offset clause has no counterpart here).  Assets of 8 + 42 (quick) / 52 (thorough) bytes "
+                "= up to 3 / 4 chunks; stores up to 3 bytes; the embed query is split by the position of the existing manifest chunk (exhaustive cases)."),
+    scope=_PNG_SCOPE, outside=_PNG_OUT, assumptions=_PNG_ASSUME, harnesses=[],
+    smt=dict(module="props_c09", K=6, N=24, timeout_ms=1500000),
+)
+
 # --------------------------------------------------------------------------- C14
 PROPERTIES["C14"] = dict(
     title="Reserved-size padding is exact and signing succeeds for any ample reserve",
